@@ -108,12 +108,32 @@ func slotsText(ts []slotTok) string {
 		}
 	}
 	sb.WriteString(") personality i8* null {\n")
-	lhs := func(t slotTok) string {
-		if t.mode == 'n' {
-			return "%" + nm() + " = "
+	// identifiers of the i32 values defined so far (every one of them is USED in the exit block: a numbering that is accepted must also bind)
+	var i32vals []string
+	llvmN := 0
+	for _, t := range ts { // parameters: their LLVM numbers come first
+		if t.kind == "P" && t.mode != 'n' {
+			if t.mode == 'e' {
+				i32vals = append(i32vals, fmt.Sprintf("%%%d", t.id))
+			} else {
+				i32vals = append(i32vals, fmt.Sprintf("%%%d", llvmN))
+			}
+			llvmN++
 		}
-		return fmt.Sprintf("%%%d = ", t.id)
 	}
+	lhsVal := func(t slotTok, isI32 bool) string {
+		var id string
+		if t.mode == 'n' {
+			id = "%" + nm()
+		} else {
+			id = fmt.Sprintf("%%%d", t.id)
+		}
+		if isI32 {
+			i32vals = append(i32vals, id)
+		}
+		return id + " = "
+	}
+	lhs := func(t slotTok) string { return lhsVal(t, true) }
 	for _, t := range ts {
 		switch t.kind {
 		case "B":
@@ -136,7 +156,7 @@ func slotsText(ts []slotTok) string {
 		case "I":
 			sb.WriteString("\t" + lhs(t) + "invoke i32 @if()\n\t\tto label %exit unwind label %exit\n")
 		case "K": // value-yielding terminators other than invoke
-			sb.WriteString("\t" + lhs(t) + "catchswitch within none [label %exit] unwind to caller\n")
+			sb.WriteString("\t" + lhsVal(t, false) + "catchswitch within none [label %exit] unwind to caller\n")
 		case "CB":
 			sb.WriteString("\t" + lhs(t) + "callbr i32 @if()\n\t\tto label %exit []\n")
 		case "IV":
@@ -147,7 +167,25 @@ func slotsText(ts []slotTok) string {
 			sb.WriteString("\tcall void () @vf()\n")
 		}
 	}
-	sb.WriteString("exit:\n\tret void\n}\n")
+	sb.WriteString("exit:\n")
+	// uses only when the written numbering is LLVM's (otherwise the text is not the module under test anyway)
+	n, valid := 0, true
+	for _, t := range ts {
+		if !t.counting() || t.mode == 'n' {
+			continue
+		}
+		if t.mode == 'e' && t.id != int64(n) {
+			valid = false
+		}
+		n++
+	}
+	if !valid {
+		i32vals = nil
+	}
+	for i, v := range i32vals {
+		fmt.Fprintf(&sb, "\t%%use%d = add i32 %s, 0\n", i, v)
+	}
+	sb.WriteString("\tret void\n}\n")
 	return sb.String()
 }
 
@@ -356,6 +394,37 @@ func init() {
 		if err != nil {
 			return "error"
 		}
+		_ = m.String()
+		return "ok " + modIDs(m)
+	})
+	// the same module built through the Module builder methods (unnamed entities get the empty name), then printed
+	reg("num.modapi", func(a []string) string {
+		m := ir.NewModule()
+		base := m.NewGlobalDef("base", constant.NewInt(types.I32, 0))
+		resolver := ir.NewFunc("resolver", types.NewPointer(types.NewFunc(types.Void)))
+		k := 0
+		for _, s := range a {
+			p := strings.Split(s, ":")
+			name := ""
+			if p[1] == "n" {
+				k++
+				name = fmt.Sprintf("g%d", k)
+			}
+			switch p[0] {
+			case "G":
+				m.NewGlobalDef(name, constant.NewInt(types.I32, 0))
+			case "A":
+				m.NewAlias(name, base)
+			case "I":
+				m.NewIFunc(name, resolver)
+			case "F":
+				m.NewFunc(name, types.Void)
+			case "D":
+				m.NewFunc(name, types.Void).NewBlock("").NewRet(nil)
+			}
+		}
+		m.Funcs = append(m.Funcs, resolver)
+		resolver.Parent = m
 		_ = m.String()
 		return "ok " + modIDs(m)
 	})
